@@ -518,6 +518,12 @@ func (env *Env) evalCall(e *Expr) *Val {
 			cs = append(cs, Forall([]*Term{x}, [][]*Term{{Select(cur, x)}}, Implies(Lt(x, env.old.ac), Eq(Select(cur, x), Select(old, x)))))
 		}
 		return mathBool(And(cs...))
+	case "tagof": // dynamic type tag of an interface value, as an integer (0 for nil)
+		v := env.eval(e.Args[0])
+		if v.K != VIface {
+			efail("tagof on non-interface")
+		}
+		return mathInt(v.Tag)
 	case "ref": // identity of a value as an integer
 		return mathInt(identity(env.eval(e.Args[0])))
 	case "sameslice": // same backing array, offset, len
@@ -573,7 +579,17 @@ func (env *Env) evalCall(e *Expr) *Val {
 		if ret.IsArr() {
 			return &Val{K: VArr, X: x}
 		}
-		return &Val{K: VScalar, X: x}
+		rv := &Val{K: VScalar, X: x}
+		if sf.RetType != "" && sf.RetType != "int" && sf.RetType != "bool" {
+			// typed result (e.g. a reflect.Value token or a string): resolve for later field access
+			if te, err := ParseExpr(sf.RetType); err == nil {
+				func() {
+					defer func() { recover() }()
+					rv.T = env.resolveType(te)
+				}()
+			}
+		}
+		return rv
 	}
 	efail("unknown function %q in contract expression", e.Name)
 	return nil
@@ -795,6 +811,15 @@ func (env *Env) evalLocs(e *Expr) (locs []Loc, err error) {
 	case EIdent:
 		if e.Name == "everything" {
 			return []Loc{{"*", nil, nil}}, nil
+		}
+	case ECall:
+		// allof(g): ghost field g of every object (the callee states its own frame for g in an
+		// ensures clause, which is then an obligation on its body like any other)
+		if e.Name == "allof" && len(e.Args) == 1 && e.Args[0].Kind == EIdent {
+			if gf, ok := env.c.eng.ghostFields[e.Args[0].Name]; ok {
+				return []Loc{{ghostMapName(gf.Name), nil, SArr(SInt, ghostSort(gf.Type))}}, nil
+			}
+			efail("allof: unknown ghost field %q", e.Args[0].Name)
 		}
 	}
 	efail("unsupported location expression")
